@@ -352,6 +352,7 @@ def check_cli(ck, scenarios):
         idx_of = {}
         stopped = set()
         trace, sudo, execs = [], [], []
+        alive_at_restore = set()
         for e in r['events']:
             if e[0] == 'sudo':
                 a = ['sudo'] + e[1:]
@@ -378,6 +379,18 @@ def check_cli(ck, scenarios):
                 if e[1] in idx_of and e[1] not in stopped:
                     stopped.add(e[1])
                     trace.append({'t': 'stop', 'i': idx_of[e[1]]})
+            elif e[0] == 'alive-at-restore':
+                alive_at_restore.add(e[1])
+        # a process that was killed directly (commands not wrapped) cannot log its end; the fake
+        # sudo noted at `restore` which processes were still running: the others had ended before
+        if any(t['t'] == 'restore' for t in trace):
+            ri = min(i for i, t in enumerate(trace) if t['t'] == 'restore')
+            for pid, n_ in idx_of.items():
+                if pid not in stopped and pid not in alive_at_restore and \
+                        any(t['t'] == 'start' and t['i'] == n_ for t in trace[:ri]):
+                    trace.insert(ri, {'t': 'stop', 'i': n_})
+                    stopped.add(pid)
+                    ri += 1
         num_cores = None
         for v, a in sudo:
             if v == 'minimize' and '--num-cores' in a:
